@@ -158,7 +158,9 @@ def run(repo, rep):
                 widths.append((e.args[0], e.conds))
         if not widths:
             probs.append('no fragment width found')
+        from ..sym import inline_pure_calls
         for w, conds in widths:
+            w = inline_pure_calls(w, repo, 'dimsemessages')
             guarded_nz = ('+' + mp) in conds or ('-not ' + mp) in conds or ('-%s == 0' % mp) in conds
             guarded_z = ('-' + mp) in conds or ('+not ' + mp) in conds or ('+%s == 0' % mp) in conds
             try:
